@@ -2,6 +2,7 @@ package props
 
 import (
 	"fmt"
+	"math"
 	"strconv"
 	"strings"
 	"testing"
@@ -81,8 +82,10 @@ func genListPair(t *rapid.T, strs bool) (interface{}, interface{}) {
 		if mode == 1 && la > 0 && lb > 0 {
 			pa := []int{0, la - 1, la / 2}[rapid.IntRange(0, 2).Draw(t, "posa")]
 			pb := []int{0, lb - 1, lb / 2}[rapid.IntRange(0, 2).Draw(t, "posb")]
-			a[pa] = -7
-			b[pb] = -7
+			// the one common element: an ordinary value, or one a hand-made table might reserve
+			common := rapid.SampledFrom([]int64{-7, -7, math.MinInt64, math.MaxInt64, 0, -1, math.MinInt32, 1 << 32, -8}).Draw(t, "common")
+			a[pa] = common
+			b[pb] = common
 		}
 	}
 	if !strs {
@@ -129,6 +132,40 @@ func genC17(t *rapid.T) C17Case {
 		l, _ := genListPair(t, strs)
 		var probe interface{}
 		n := 0
+		if !strs && rapid.IntRange(0, 3).Draw(t, "run") == 0 {
+			// structured integer lists: a run start..start+n-1, ascending or descending or with step 2,
+			// optionally damaged - one element replaced by a copy of its neighbour (a duplicate and a gap:
+			// still sorted, still last-first = n-1) or removed; probed at the gap, the ends and just outside
+			n := rapid.IntRange(1, 45).Draw(t, "run_n")
+			start := rapid.SampledFrom([]int64{1, 0, -20, 100, math.MaxInt64 - 50, math.MinInt64}).Draw(t, "run_start")
+			step := rapid.SampledFrom([]int64{1, 1, 1, 2, -1}).Draw(t, "run_step")
+			if step < 0 {
+				start += int64(n)
+			}
+			run := make([]int64, n)
+			for i := range run {
+				run[i] = start + int64(i)*step
+			}
+			gap := run[0] - step
+			if n >= 3 {
+				switch rapid.IntRange(0, 2).Draw(t, "run_damage") {
+				case 1:
+					k := rapid.IntRange(1, n-2).Draw(t, "run_k")
+					gap = run[k]
+					run[k] = run[k-1+2*rapid.IntRange(0, 1).Draw(t, "run_side")]
+				case 2:
+					k := rapid.IntRange(1, n-2).Draw(t, "run_k")
+					gap = run[k]
+					run = append(run[:k:k], run[k+1:]...)
+				}
+			}
+			pr := []int64{gap, run[0], run[len(run)-1], run[0] - step, run[len(run)-1] + step, run[len(run)/2]}[rapid.IntRange(0, 5).Draw(t, "run_probe")]
+			c.A, c.B = m.V{X: pr}, m.V{X: run}
+			if rapid.Bool().Draw(t, "run_lit") {
+				c.ALit, c.BLit = true, true
+			}
+			return c
+		}
 		switch x := l.(type) {
 		case []int64:
 			n = len(x)
